@@ -200,6 +200,46 @@ MANIFEST_TEXT["C19"] = dict(
     note="Reads the public Graph/Tree/Node/Edge accessors only.",
 )
 
+def _san(harness, mode, quick, thorough, watchdog=120, **kw):
+    d = dict(harness=harness, mode=mode, flavour="san", quick=quick, thorough=thorough, watchdog=watchdog)
+    d.update(kw)
+    return d
+
+CHECKS["C15"] = dict(
+    level="exploration",
+    leakcheck=True,
+    ignore_functional=True,
+    rule=("every generated case of every monitor harness (all five libraries: build, use, edit, tear down) re-run in an AddressSanitizer + UndefinedBehaviourSanitizer build with a "
+          "LeakSanitizer check after EVERY case, assertions delivered as exceptions, a watchdog per case; plus API-lifecycle histories aimed at ownership: shapes with pins in use "
+          "deleted, connectors and junctions deleted inside pending transactions, moves followed by deletes, routers destroyed with queued actions. "
+          "non-trivial = as defined by the respective harness (lifecycle histories: an object was deleted while another still referred to it, or the router was destroyed with queued actions)"),
+    workloads=[
+        _san("c01_vpsc", "instances", 10000, 400000), _san("c01_vpsc", "histories", 4000, 100000), _san("c01_vpsc", "opt", 3000, 60000), _san("c01_vpsc", "resolve", 1500, 30000),
+        _san("c17_paths", "graphs", 2500, 60000), _san("c09_overlaps", "sets", 2500, 60000), _san("c09_overlaps", "gen", 2500, 60000),
+        _san("c16_geom", "random", 100000, 4000000),
+        _san("c03_route", "valid", 1500, 40000), _san("c03_route", "shortest", 1500, 30000), _san("c03_route", "ortho", 2500, 50000),
+        _san("c06_incr", "history", 2500, 60000, watchdog=60), _san("c10_nudge", "nudge", 2500, 60000), _san("c11_pins", "pins", 1500, 40000), _san("c12_hyper", "hyper", 2500, 60000),
+        _san("c07_cola", "constraints", 1500, 30000, watchdog=60), _san("c07_cola", "overlap", 1000, 20000),
+        _san("c13_topology", "pipeline", 800, 20000), _san("c13_topology", "direct", 4000, 100000, watchdog=60),
+        _san("c14_hola", "random", 160, 6000, watchdog=300),
+        _san("c18_dialect", "subset", 3000, 100000), _san("c18_dialect", "roundtrip", 4000, 100000),
+        _san("c19_decomp", "peel", 8000, 300000), _san("c19_decomp", "planarise", 5000, 200000),
+        _san("c15_api", "avoid", 5000, 150000, watchdog=60), _san("c15_api", "vpsc", 8000, 300000, watchdog=30), _san("c15_api", "regress", 3, 3, fixed=True, watchdog=60),
+    ],
+    min_nontrivial=dict(quick=30000, thorough=500000),
+    max_inconclusive=0.08,
+    require_obs=[],
+    assumptions=["a case that ends in a library assertion is not leak-checked for that case's objects: the router/solver an exception unwound through is abandoned, not destroyed "
+                 "(such leaks are suppressed by matching the abandoned object's allocation site in the harness)",
+                 "reads of uninitialised values are only detected when they lead to a UBSan report (invalid bool/enum load) or a behavioural difference seen by C20; MemorySanitizer "
+                 "is not used because libstdc++ is not instrumented (valgrind memcheck sample in the thorough tier)"],
+)
+MANIFEST_TEXT["C15"] = dict(
+    technique="compiler sanitizers as the oracle (gcc AddressSanitizer + UndefinedBehaviourSanitizer, LeakSanitizer check after every case, throwing COLA_ASSERT, per-case watchdog) over all generated API workloads and lifecycle histories",
+    text="All monitor workloads are replayed in a sanitizer build: any ASan/UBSan report, assertion (CriticalFailure), foreign exception, crash, hang beyond the watchdog (re-run alone before being reported) or per-case leak with a library allocation stack is a violation, identified by its innermost library frames. The same signals seen by any other check are reported under this property as well. Held on the executions observed; red-zone tools miss intra-object overflows and reads of uninitialised data that do not trip UBSan.",
+    note="One sanitizer family per build (address+undefined); reports are fatal (-fno-sanitize-recover=all, abort_on_error=1) and the driver restarts the slice after the failing case.",
+)
+
 CHECKS["C03"] = dict(
     level="exploration",
     rule=("cases = scenes of interior-disjoint convex shapes with integer coordinates in three regimes (separated / touching cells sharing edges and corners / dense), "
